@@ -58,6 +58,37 @@ def mutants_of(path, text):
             for nv in ({v + 1, v - 1} - {-1}):
                 new = line[:m.start(1)] + str(nv) + line[m.end(1):]
                 out.append((ln, line, new, f"{v} -> {nv}"))
+    if os.environ.get("MUT_OPS") == "v2":
+        out = []
+        groups = [["#lowest_bit", "#number_of_bits", "#shift_left", "#shift_right", "#indexed_stride", "#indexed_count"],
+                  ["lowest_bit", "number_of_bits", "total_number_bits"], ["range.start", "range.end"], ["array_stride", "array_count"],
+                  ["previous_mask", "running_mask", "field_mask"], ["provide_getter", "provide_setter"], ["max_discr", "max_count"],
+                  ["lower", "upper"], ["getter_type", "setter_type"], ["internal", "exposed"]]
+        for ln, line in enumerate(lines):
+            s = line.strip()
+            if s.startswith("//") or s.startswith("#[") or s.startswith("use ") or not s or s in ("{", "}", "};", "})", "});", "),", ")"):
+                continue
+            if "format!(" in line or "write!(" in line or s.startswith('"'):
+                continue
+            # statement / line deletion
+            if (s.endswith(";") or s.endswith(",")) and not s.startswith("pub ") and not s.startswith("let "):
+                out.append((ln, line, "", "delete line"))
+            # identifier swaps within a group of same-typed names
+            for g in groups:
+                for a in g:
+                    if not re.search(r"(?<![\w#])" + re.escape(a) + r"(?![\w])", line):
+                        continue
+                    for b in g:
+                        if a == b:
+                            continue
+                        new = re.sub(r"(?<![\w#])" + re.escape(a) + r"(?![\w])", b, line, count=1)
+                        if new != line:
+                            out.append((ln, line, new, f"{a} -> {b}"))
+            # drop a cast / a negation / a shift term inside templates
+            for pat, rep, what in ((r" as #unsigned_field_type", "", "drop unsigned cast"), (r"\.value\(\)", "", "drop .value()"),
+                                   (r"!\(", "(", "drop !"), (r" #array_shift", "", "drop array shift"), (r"\(index \* #indexed_stride\)", "0", "drop index*stride")):
+                for m in re.finditer(pat, line):
+                    out.append((ln, line, line[:m.start()] + rep + line[m.end():], what))
     res = []
     seen = set()
     for ln, old, new, what in out:
@@ -99,7 +130,7 @@ def stage1(m, slot):
 
 def main():
     os.makedirs(SCR, exist_ok=True)
-    res_path = os.path.join(ROOT, "mutcampaign-results.json")
+    res_path = os.path.join(ROOT, "mutcampaign-results.json" if os.environ.get("MUT_OPS") != "v2" else "mutcampaign2-results.json")
     done = {}
     if os.path.exists(res_path):
         for r in json.load(open(res_path))["mutants"]:
